@@ -1,6 +1,12 @@
 package mon
 
-import "verif/harness/core"
+import (
+	"strings"
+
+	li "github.com/corazawaf/libinjection-go"
+
+	"verif/harness/core"
+)
 
 var registry = map[string]func() *core.Check{
 	"C01": c01,
@@ -25,12 +31,43 @@ var registry = map[string]func() *core.Check{
 	"C20": c20,
 }
 
+// History inputs (core.Check.Spice): inputs that end inside a construct, fire
+// in a late context, take a rare rule, or are empty. The per-input monitors
+// feed two of them to the public entry point before every 61st case, so a
+// scanner state, pool or cache that survives a call meets the monitored
+// inputs right afterwards.
+var sqlSpice = []string{
+	"1' or '1'='1", "x'--sp_password", "1 #\n or 1", "1 --x\n", "/*", "'", "\"", "`", "select", "1 union select 1,2 --", "q'[", "$t$", "@@", "0x", "{`", "1;", "\\", "a.b`", "1 /*!", "",
+	"x' and 1=(select 1) -- ", strings.Repeat("1+", 40), "foo--", "1c", "-1' union all select null,null#", "x\" or \"a\"=\"a", "pg_sleep", "load\x7ffile", "1 in (", "n'", "u&'", "aaaaaaaaaaaaaaaaaaaaaaaaaaaaaaaaaaaaaaaaaa.",
+}
+
+var htmlSpice = []string{
+	"</p ", "</a", "<a onclick=alert(1)>", "<a href=javascript:x>", "<!--", "<![CDATA[", "x' onerror=y", "<svg><set attributeName=onmouseover>", "", "<script>", "<a b='", "`", "<a b=\"c", "<%", "<?xml", "<!doctype",
+	"x\" onload=x ", "<a/", "<a b=c/", "</script x='", "<a on", "<p style=", "x` onclick=x", ">", "<", "<a href=&#", "</", "<a b", "<a b=", "<style>",
+}
+
+var sqlSpiced = map[string]bool{"C01": true, "C03": true, "C06": true, "C08": true, "C10": true, "C12": true, "C14": true, "C16": true, "C18": true}
+var htmlSpiced = map[string]bool{"C02": true, "C04": true, "C07": true, "C11": true, "C13": true, "C15": true, "C17": true, "C19": true}
+
 // Lookup returns the check for a property id, or nil.
 func Lookup(id string) *core.Check {
-	if f, ok := registry[id]; ok {
-		return f()
+	f, ok := registry[id]
+	if !ok {
+		return nil
 	}
-	return nil
+	ch := f()
+	if ch.Custom == nil {
+		switch {
+		case sqlSpiced[id]:
+			ch.Spice, ch.SpiceCall = sqlSpice, func(s string) { li.IsSQLi(s) }
+		case htmlSpiced[id]:
+			ch.Spice, ch.SpiceCall = htmlSpice, func(s string) { li.IsXSS(s) }
+		}
+		if ch.SpiceCall != nil {
+			ch.Rule += " Before every 61st case each worker feeds two of " + map[bool]string{true: "32", false: "30"}[sqlSpiced[id]] + " fixed history inputs (inputs ending inside a construct, positives, rare rules, the empty string) to the public entry point, results ignored; a violation that a lone call in a fresh process does not show is probed again in a fresh process after the calls recorded before it and is then reported as <kind>-after-history."
+		}
+	}
+	return ch
 }
 
 // IDs lists the registered properties.
